@@ -108,8 +108,17 @@ func TestChain(t *testing.T) {
 		var slots []*slot
 		slotIdx = map[string]int{}
 		n := rapid.IntRange(0, 12).Draw(t, "n")
+		favour := -1
+		if rapid.IntRange(0, 4).Draw(t, "large") == 0 { // long chains, mostly one kind of slot, many ties (sorting algorithms change behaviour with size)
+			n = rapid.IntRange(13, 45).Draw(t, "nLarge")
+			favour = rapid.IntRange(0, 2).Draw(t, "favour")
+		}
 		for i := 0; i < n; i++ {
-			s := &slot{kind: rapid.IntRange(0, 2).Draw(t, "kind"), name: fmt.Sprintf("s%d", i), order: uint32(rapid.SampledFrom([]uint64{0, 1, 1, 5, 5, 1000, 4294967295}).Draw(t, "order"))}
+			kind := rapid.IntRange(0, 2).Draw(t, "kind")
+			if favour >= 0 && rapid.IntRange(0, 3).Draw(t, "favoured") > 0 {
+				kind = favour
+			}
+			s := &slot{kind: kind, name: fmt.Sprintf("s%d", i), order: uint32(rapid.SampledFrom([]uint64{0, 1, 1, 5, 5, 1000, 4294967295}).Draw(t, "order"))}
 			slotIdx[s.name] = i
 			switch s.kind {
 			case 0:
@@ -351,6 +360,7 @@ func TestChain(t *testing.T) {
 			}
 		}
 		c.ClassIf(collide, "colliding-orders")
+		c.ClassIf(n > 12, "more-than-12-slots")
 		c.ClassIf(len(blocks) > 0, "has-block")
 		if nontrivial {
 			c.NonTrivial()
